@@ -148,7 +148,7 @@ def run_tlc(module, cfg_path, workers=None, timeout=1800, simulate=None, depth=N
     for f in extra_files:
         shutil.copy(f, d)
     shutil.copy(cfg_path, os.path.join(d, "run.cfg"))
-    cmd = ["java", "-Xss1g", "-XX:+UseParallelGC", "-Xmx12g", "-Djava.io.tmpdir=" + d]
+    cmd = ["java", "-Xss1g", "-XX:+UseParallelGC", "-Xmx8g", "-Djava.io.tmpdir=" + d]
     if deque:
         cmd.append("-Dtlc2.tool.queue.IStateQueue=StateDeque")
     cmd += ["-cp", TLA_CP, "tlc2.TLC", "-metadir", os.path.join(d, "meta"), "-config", "run.cfg",
